@@ -916,13 +916,13 @@ func (c *GoCompiler) compileMethodFuncLiteralWithNativeArgsBody(parameters []ast
 		if p.Initialiser != nil {
 			fmt.Fprintf(&funcBuffer, ", arg_%s value.Value", localName)
 
-			c.emit("if (%s).IsUndefined() {\n", localName)
+			c.emit("if (arg_%s).IsUndefined() {\n", localName)
 			val := c.compileExpression(p.Initialiser, false)
 			c.emitAssignGoLocal(local.goLocal, val)
 			c.emit("} else {\n")
 
 			argVal := newGoValue(
-				localName,
+				"arg_"+localName,
 				typ,
 				goValueType,
 			)
